@@ -1061,6 +1061,9 @@ func (x *Exec) callsiteClauses(fn *types.Func, key string, call *ast.CallExpr, a
 		if cs.Callee == "make" || (cs.Callee != key && cs.Callee != fn.Name()) {
 			continue
 		}
+		if cs.Ordinal > 0 && x.callOrdinal(call, fn) != cs.Ordinal {
+			continue
+		}
 		sc := x.scopeAt(env, call.Pos())
 		for j, p := range cs.Params {
 			if j < len(args) {
@@ -1114,4 +1117,23 @@ func (x *Exec) inferredFieldFrame(cfi *FuncInfo, call *ast.CallExpr, oldV, newV 
 	if kept > 0 {
 		x.W.Note(fmt.Sprintf("inferred frame: %d field(s) of %s not writable by %s or its callees keep their values", kept, named.Obj().Name(), cfi.Key))
 	}
+}
+
+// callOrdinal: 1-based position (source order) of call among the calls of the same callee in the current function.
+func (x *Exec) callOrdinal(call *ast.CallExpr, fn *types.Func) int {
+	n, found := 0, 0
+	ast.Inspect(x.cx.fi.Decl.Body, func(nd ast.Node) bool {
+		c, ok := nd.(*ast.CallExpr)
+		if !ok || found > 0 {
+			return found == 0
+		}
+		if x.calleeOf(c) == fn {
+			n++
+			if c == call {
+				found = n
+			}
+		}
+		return true
+	})
+	return found
 }
